@@ -92,7 +92,7 @@ impl<T: Qcow2IoOps> Qcow2Dev<T> {
         // to it is gone from the disk. Otherwise a crash leaves a mapping to a
         // cluster whose refcount is 0 or that already holds someone else's
         // data. Same rule as the COW path in do_write_cow().
-        self.flush_meta().await?;
+        self.__flush_meta().await?;
         self.call_fsync(0, usize::MAX, 0).await?;
 
         for (host_cluster, host_count) in released {
